@@ -20,6 +20,19 @@ small fixed receiver.  Inside the cell the worker fans out into
                         plus all-tensors-reversed: result must be labelled-equal
   (iv)  insertion order all insertion orders (n <= 3) / reversal+rotation
 
+A second, purely static table is exhaustive over reflection: for every
+Tensor / TensorNetwork (sub)class exported by quimb.tensor and every (f, f_)
+pair visible on it, ``f_`` must be functools.partialmethod of the very
+function ``f`` resolves to on that class, plus inplace=True (an override of
+``f`` that forgets to re-alias ``f_`` makes the two spellings run different
+code - five such pairs exist in the tree).
+
+Besides the pairs / ``inplace=`` methods / operators, the table holds query
+methods without in-place twin (``q:``), properties (``p:``) and in-place-only
+mutators run on a copy (``mut:``) - the first sentence of the property ("the
+result of ANY method depends only on labelled content") applies to them too;
+they get checks (i), (iii), (iv).
+
 The domain table lives in ``c03_dom.py``.
 """
 
@@ -148,9 +161,11 @@ def _fp(obj, path, out, seen):
         out[path + ".cls"] = type(obj).__name__
         out[path + ".exponent"] = repr(obj.exponent)
         out[path + ".tids"] = tuple(obj.tensor_map)
-        for k in sorted(vars(obj)):
+        # declared extra properties + public attributes (private ones that
+        # are not declared, e.g. `_site_set`, are lazily filled caches)
+        for k in sorted(set(type(obj)._EXTRA_PROPS) | {k for k in vars(obj) if not k.startswith("_")}):
             if k not in _TN_CORE:
-                out[path + ".attr." + k] = _plain(vars(obj)[k])
+                out[path + ".attr." + k] = _plain(getattr(obj, k, "<unset>"))
         out[path + ".ind_map"] = tuple((ix, tuple(sorted(obj.ind_map[ix]))) for ix in sorted(obj.ind_map))
         out[path + ".tag_map"] = tuple((tg, tuple(sorted(obj.tag_map[tg]))) for tg in sorted(obj.tag_map))
         out[path + ".outer"] = tuple(obj.outer_inds())
@@ -323,6 +338,22 @@ def _t_sorted(ts):
     return tuple(ts["inds"][i] for i in order), np.transpose(ts["data"], order)
 
 
+def unordered(sn):
+    """Sort the items of a returned sequence by labelled content (for results
+    that are collections without a documented order)."""
+    if sn["k"] == "L":
+
+        def key(it):
+            if it["k"] == "T":
+                return (0, tuple(sorted(map(str, it["tags"]))), tuple(sorted(map(str, it["inds"]))))
+            if it["k"] == "V":
+                return (1, repr(it["v"]))
+            return (2, it["k"])
+
+        return dict(sn, items=sorted(sn["items"], key=key))
+    return sn
+
+
 def diff_strict(a, b, path="ret"):
     """Spelling agreement: everything equal incl. order; None if equal, else
     (field, message)."""
@@ -337,9 +368,13 @@ def diff_strict(a, b, path="ret"):
             return "data", "%s.data differs" % path
         return None
     if k == "N":
-        for f in ("cls", "props", "outer", "tids"):
+        for f in ("cls", "props"):
             if a[f] != b[f]:
                 return f, "%s.%s: %r vs %r" % (path, f, a[f], b[f])
+        # (tids and the ORDER of outer_inds() are bookkeeping, not labelled
+        # content: compared as sets / not at all)
+        if set(a["outer"]) != set(b["outer"]):
+            return "outer", "%s.outer: %r vs %r" % (path, a["outer"], b["outer"])
         if abs(a["exponent"] - b["exponent"]) > 1e-9 * max(1.0, abs(a["exponent"])):
             return "exponent", "%s.exponent: %r vs %r" % (path, a["exponent"], b["exponent"])
         if len(a["ts"]) != len(b["ts"]):
@@ -354,7 +389,7 @@ def diff_strict(a, b, path="ret"):
     if k == "S":
         return None if _close(a["v"], b["v"], 1e-12) else ("value", "%s: %r vs %r" % (path, a["v"], b["v"]))
     if k == "L":
-        if a["t"] != b["t"] or len(a["items"]) != len(b["items"]):
+        if len(a["items"]) != len(b["items"]):  # (list vs tuple is not labelled content)
             return "len", "%s: sequence %s[%d] vs %s[%d]" % (path, a["t"], len(a["items"]), b["t"], len(b["items"]))
         for i, (u, v) in enumerate(zip(a["items"], b["items"])):
             d = diff_strict(u, v, "%s[%d]" % (path, i))
@@ -508,6 +543,16 @@ def perms_for(rank, tier):
     return seen
 
 
+def perms_small(rank):
+    ident = tuple(range(rank))
+    if rank <= 1:
+        return []
+    out = [ident[::-1]]
+    if rank > 2:
+        out.append(ident[1:] + ident[:1])
+    return out
+
+
 def orders_for(n, tier):
     ident = tuple(range(n))
     if n <= 1:
@@ -563,6 +608,9 @@ def _build(ent, rname, variant):
     xt = [x] if isinstance(x, qtn.Tensor) else list(x.tensor_map.values())
     if variant is not None and variant[0] == "perm":
         permute_tensor(xt[variant[1]], variant[2])
+    if variant is not None and variant[0] == "perm2":
+        permute_tensor(xt[variant[1]], variant[2])
+        permute_tensor(xt[variant[3]], variant[4])
     if variant is not None and variant[0] == "rev":
         for t in xt:
             if t.ndim > 1:
@@ -584,6 +632,14 @@ def _call(x, name, args, kwargs):
 
     if name in dom.OPERATORS:
         return dom.OPERATORS[name](x, *args)
+    if name.startswith("q:"):  # query method without in-place twin
+        return getattr(x, name[2:])(*args, **kwargs)
+    if name.startswith("p:"):  # property
+        return getattr(x, name[2:])
+    if name.startswith("mut:"):  # in-place-only mutator: run it on a copy
+        y = x.copy()
+        r = getattr(y, name[4:])(*args, **kwargs)
+        return y if (r is None or r is y) else (y, r)
     return getattr(x, name)(*args, **kwargs)
 
 
@@ -669,7 +725,12 @@ def evaluate(ent, rname, tier):
                 sub="purity",
             )
         )
-        return res
+        # the receiver is spoilt: continue the spelling comparison on a fresh
+        # one (an independent question), skip the storage variants
+        base = run_plain(ent, rname, None, readonly=False)
+        n_runs += 1
+        x = _build(ent, rname, None)[0]  # (base["x"] is spoilt as well)
+        flags = flags | {"noperm", "noorder", "impure-ok", "alias-ok"}
     plain_exc = base["exc"] if base["status"] == "exc" else None
     if plain_exc is None and base["alias"] and "alias-ok" not in flags:
         res.append(
@@ -725,7 +786,7 @@ def evaluate(ent, rname, tier):
         if plain_exc is None:
             # original (sharing arrays with the copy) and arguments untouched
             ch = fp_diff(base["fp0"], fingerprint(base["objs"]))
-            ch2 = fp_diff(fa0, fingerprint(objs2))
+            ch2 = [] if "inplace-mutates-args" in flags else fp_diff(fa0, fingerprint(objs2))
             if (ch or ch2) and "impure-ok" not in flags:
                 res.append(
                     table.bad(
@@ -737,7 +798,26 @@ def evaluate(ent, rname, tier):
                     )
                 )
                 return res
-            if "inplace-returns-other" not in flags:
+            if base["ret"] is None and "inplace-returns-other" not in flags:
+                res.append(
+                    table.bad(
+                        core.problem("plain %s.%s on %s returns None (its in-place twin works on the receiver): the result of the plain spelling is lost" % (ent["owner"], name, rname), **_sig(ent, rname, "plain-returns-none")),
+                        sub="plain-none",
+                    )
+                )
+                return res
+            if "collapses" in flags and not isinstance(base["ret"], qtn.TensorNetwork):
+                # documented: the in-place spelling keeps a one-tensor network
+                if ret2 is not y or y.num_tensors != 1:
+                    d = ("inplace-return", "in-place spelling should keep a one-tensor network")
+                else:
+                    (t1,) = y.tensors
+                    t1 = t1 * 10.0 ** float(np.real(y.exponent)) if y.exponent else t1
+                    pr = base["ret"]
+                    if not isinstance(pr, qtn.Tensor):
+                        pr = qtn.Tensor(np.asarray(pr), (), t1.tags)
+                    d = diff_labelled(snap(pr), snap(t1))
+            elif "inplace-returns-other" not in flags:
                 if ret2 is not y:
                     res.append(
                         table.bad(
@@ -757,10 +837,6 @@ def evaluate(ent, rname, tier):
                     )
                 )
                 return res
-    if plain_exc is not None:
-        res.append(table.rejected("%s:%s:%s" % (name, rname, type(plain_exc).__name__), sub="plain"))
-        return res
-
     # ---------------------------------------------------------- (iii), (iv)
     mode = "exact"
     if "dense" in flags:
@@ -768,6 +844,8 @@ def evaluate(ent, rname, tier):
     if "value" in flags:
         mode = "value"
     variants = []
+    # (if both spellings reject the input as built, plain_exc is set: the same
+    # labelled input must then be rejected however it is stored)
     if "noperm" not in flags:
         for i, r in enumerate(base["n_xt"]):
             for p in perms_for(r, tier):
@@ -777,16 +855,41 @@ def evaluate(ent, rname, tier):
                 variants.append(("aperm", i, p))
         if any(r > 1 for r in base["n_xt"] + base["n_at"]):
             variants.append(("rev",))
+        if tier == "thorough" and len(base["n_xt"]) >= 2:
+            # two tensors of the receiver permuted at once: all pairs, all
+            # permutation pairs up to three tensors / a generating family above
+            nx = len(base["n_xt"])
+            small = nx <= 3
+            for i in range(nx):
+                for j in range(i + 1, nx):
+                    pi = perms_for(base["n_xt"][i], "quick") if small else perms_small(base["n_xt"][i])
+                    pj = perms_for(base["n_xt"][j], "quick") if small else perms_small(base["n_xt"][j])
+                    for a in pi:
+                        for b in pj:
+                            variants.append(("perm2", i, a, j, b))
     if "noorder" not in flags and not isinstance(x, qtn.Tensor):
         for o in orders_for(base["nt"], tier):
             variants.append(("order", o))
     seen_bad = set()
     for v in variants:
-        kind = "axis-order" if v[0] in ("perm", "aperm", "rev") else "insertion-order"
+        kind = "axis-order" if v[0] in ("perm", "perm2", "aperm", "rev") else "insertion-order"
         if kind in seen_bad:
             continue
         r = run_plain(ent, rname, v, readonly=False)
         n_runs += 1
+        if plain_exc is not None:
+            if r["status"] == "ok":
+                seen_bad.add(kind)
+                res.append(
+                    table.bad(
+                        core.problem(
+                            "%s.%s on %s raises %s(%s) as built but succeeds once storage variant %r is applied" % (ent["owner"], name, rname, type(plain_exc).__name__, str(plain_exc)[:120], v),
+                            **_sig(ent, rname, kind, how="raises-as-built", exc=type(plain_exc).__name__),
+                        ),
+                        sub=kind,
+                    )
+                )
+            continue
         if r["status"] == "exc":
             seen_bad.add(kind)
             res.append(
@@ -799,7 +902,10 @@ def evaluate(ent, rname, tier):
                 )
             )
             continue
-        d = diff_labelled(base["snapL"], r["snapL"], mode)
+        if "unordered" in flags:
+            d = diff_labelled(unordered(base["snapL"]), unordered(r["snapL"]), mode)
+        else:
+            d = diff_labelled(base["snapL"], r["snapL"], mode)
         if d:
             seen_bad.add(kind)
             res.append(
@@ -808,6 +914,10 @@ def evaluate(ent, rname, tier):
                     sub=kind,
                 )
             )
+    if plain_exc is not None:
+        if not any(r["st"] == "bad" for r in res):
+            res.append(table.rejected("%s:%s:%s" % (name, rname, type(plain_exc).__name__), sub="plain"))
+        return res
     if not any(r["st"] == "bad" for r in res):
         res.append(
             table.ok(
@@ -820,12 +930,85 @@ def evaluate(ent, rname, tier):
     return res
 
 
+def alias_cell(cell, common):
+    """Static half of the spelling check, exhaustive over reflection: the
+    in-place alias ``f_`` visible on class C must be functools.partialmethod of
+    the very function that C's ``f`` resolves to, with inplace=True added."""
+    import functools
+
+    from . import c03_dom as dom
+
+    cls = dom.all_classes()[cell["cls"]]
+    p = cell["name"]
+
+    def definer(name):
+        for k in cls.__mro__:
+            if name in vars(k):
+                return k
+        return None
+
+    dp, di = definer(p), definer(p + "_")
+    raw_p, raw_i = vars(dp)[p], vars(di)[p + "_"]
+    if isinstance(raw_p, (staticmethod, classmethod)):
+        raw_p = raw_p.__func__
+    if not isinstance(raw_i, functools.partialmethod):
+        return table.rejected("alias-not-partialmethod:%s.%s_" % (di.__name__, p))
+    fp, kp = (raw_p.func, dict(raw_p.keywords)) if isinstance(raw_p, functools.partialmethod) else (raw_p, {})
+    fi, ki = raw_i.func, dict(raw_i.keywords)
+    if isinstance(fi, (staticmethod, classmethod)):
+        fi = fi.__func__
+    want = dict(kp, inplace=True)
+    if fi is not fp or ki != want:
+        return table.bad(
+            core.problem(
+                "%s.%s_ (defined on %s) is an alias of %s%r, but %s.%s resolves to %s.%s: the two spellings run different code"
+                % (cls.__name__, p, di.__name__, getattr(fi, "__qualname__", fi), ki, cls.__name__, p, dp.__name__, p),
+                entry=p,
+                owner=dp.__name__,
+                check="alias-target",
+                inplace_owner=di.__name__,
+            )
+        )
+    return table.ok(key=(dp.__name__, p, di.__name__), nontrivial=True, outcome="alias:consistent")
+
+
+class _Watchdog(BaseException):
+    pass
+
+
+def _alarm(signum, frame):
+    raise _Watchdog()
+
+
+WATCHDOG_S = 300
+
+
 def cell_fn(cell, common):
+    """One (entry, receiver) cell under a per-cell time limit: a cell that
+    does not finish (only seen with broken code: e.g. a non-in-place retag that
+    mutates makes boundary contraction loop forever) is reported as a
+    'watchdog' rejection, which run() turns into a cap / harness error - never
+    into a VIOLATION (DESIGN 2.1)."""
+    import signal
+    import threading
+
     from . import c03_dom as dom
 
     ent = dom.entry(cell["e"], cell["r"])
     dom.seed_everything()
-    return evaluate(ent, cell["r"], (common or {}).get("tier", "quick"))
+    limit = float((common or {}).get("watchdog", WATCHDOG_S))
+    use = threading.current_thread() is threading.main_thread() and hasattr(signal, "setitimer")
+    if use:
+        old = signal.signal(signal.SIGALRM, _alarm)
+        signal.setitimer(signal.ITIMER_REAL, limit)
+    try:
+        return evaluate(ent, cell["r"], (common or {}).get("tier", "quick"))
+    except _Watchdog:
+        return table.rejected("watchdog:%s:%s" % (cell["e"], cell["r"]), sub="watchdog")
+    finally:
+        if use:
+            signal.setitimer(signal.ITIMER_REAL, 0)
+            signal.signal(signal.SIGALRM, old)
 
 
 # --------------------------------------------------------------------------- #
@@ -843,7 +1026,7 @@ def run(ctx):
         if only and only not in ent["name"]:
             continue
         for r in ent["recvs"]:
-            if tier == "quick" and (ent.get("thorough_only") or r in dom.THOROUGH_RECEIVERS):
+            if tier == "quick" and (ent.get("thorough_only") or r in dom.THOROUGH_RECEIVERS) and not ent.get("quick_too"):
                 continue
             cells.append({"e": ent["id"], "r": r})
     ctx.rule = (
@@ -858,7 +1041,8 @@ def run(ctx):
         "entries": len({c["e"] for c in cells}),
         "cells": len(cells),
         "receivers": sorted({c["r"] for c in cells}),
-        "axis_permutations": "all for rank<=3%s; reversal+rotation+adjacent swaps above; one tensor at a time + all reversed" % (" and 4" if tier == "thorough" else ""),
+        "axis_permutations": "all for rank<=3%s; reversal+rotation+adjacent swaps above; one tensor at a time + all reversed%s"
+        % (" and 4" if tier == "thorough" else "", "; + every pair of receiver tensors permuted at once (all permutation pairs for <=3 tensors, reversal/rotation pairs above)" if tier == "thorough" else ""),
         "insertion_orders": "all for n<=3%s; reversal+rotation above" % (" and 4" if tier == "thorough" else ""),
     }
     ctx.notes["discovered_pairs"] = cov["n_pairs"]
@@ -871,7 +1055,22 @@ def run(ctx):
         "containers documented as in/out (info=, gauges=, cache=, messages=) are exempt from the purity fingerprint",
         "gauge-dependent routines (QR/SVD based) are compared by class, properties, skeleton and dense value only",
     ]
-    table.run(ctx, "cell_fn", cells, common={"tier": tier}, name="method x recipe x receiver", chunk=2)
+    acells = []
+    for cname, cls in sorted(dom.all_classes().items()):
+        names = [n for n in dir(cls) if not n.startswith("_")]
+        for n in sorted(names):
+            if n.endswith("_") and n[:-1] in names and not only:
+                acells.append({"cls": cname, "name": n[:-1]})
+    table.run(ctx, "alias_cell", acells, name="class x pair (static alias target)", chunk=256)
+    ctx.bounds["alias_cells"] = len(acells)
+    ctx.bounds["alias_classes"] = sorted(dom.all_classes())
+    table.run(ctx, "cell_fn", cells, common={"tier": tier, "watchdog": float(ctx.opts.get("watchdog", WATCHDOG_S))}, name="method x recipe x receiver", chunk=2)
+    hung = sorted(k for k in ctx.rejections if k.startswith("watchdog:"))
+    if hung:
+        ctx.cap("per-cell watchdog (%d s) hit in: %s" % (WATCHDOG_S, ", ".join(hung)))
+        print("HARNESS-WATCHDOG property=C03 cells did not finish: %s" % ", ".join(hung))
+        if not ctx.viol:
+            raise core.HarnessError("per-cell watchdog hit and no violation recorded: " + ", ".join(hung))
     ctx.subproducts += ["method x recipe x receiver x {purity, spelling, axis permutations, insertion orders} complete for the %s tier table" % tier]
 
 
